@@ -232,6 +232,10 @@ def standard_check(ctx, cases, prop, kinds, component, monitor, extra=None, list
     """run real + model, evaluate `monitor(case) -> None | (description, signature)`, then compare the
     projection `kinds`; `extra(ctx, case)` may add further comparisons."""
     run_real_cases(ctx, cases, list_first=list_first)
+    standard_check_after_real(ctx, cases, prop, kinds, component, monitor, extra)
+
+
+def standard_check_after_real(ctx, cases, prop, kinds, component, monitor, extra=None):
     run_models(ctx, cases)
     for c in cases:
         d = describe(c)
